@@ -257,8 +257,7 @@ func concPart(r *seq.Run, tier string) {
 	}
 	stats, err := drv.ExploreAll(concFactory, plans, time.Now().Add(15*time.Minute))
 	if err != nil {
-		fmt.Println("INFRA:", err)
-		os.Exit(2)
+		drv.InfraExit("C05", concFactory, stats, err, 20000)
 	}
 	var execs int64
 	for _, st := range stats {
